@@ -180,7 +180,9 @@ mod protected {
                 where
                     A: SeqAccess<'de>,
                 {
-                    let mut arr = HeapBytes::gen_locked().expect("couldn't create locked bytes");
+                    // fill an unlocked region and lock it at the end: resizing a locked
+                    // region panics if the lock is refused
+                    let mut arr = HeapBytes::default();
                     let mut idx: usize = 0;
                     let size_hint = seq.size_hint().unwrap_or(0);
                     arr.resize(size_hint, 0);
@@ -195,15 +197,14 @@ mod protected {
                     // the size hint is only a hint: keep exactly what was read
                     arr.resize(idx, 0);
 
-                    Ok(arr)
+                    arr.mlock().map_err(A::Error::custom)
                 }
 
                 fn visit_bytes<E>(self, v: &[u8]) -> Result<Self::Value, E>
                 where
                     E: Error,
                 {
-                    Ok(HeapBytes::from_slice_into_locked(v)
-                        .expect("couldn't copy slice into locked bytes"))
+                    HeapBytes::from_slice_into_locked(v).map_err(E::custom)
                 }
             }
 
@@ -229,8 +230,8 @@ mod protected {
                 where
                     A: SeqAccess<'de>,
                 {
-                    let mut arr = HeapByteArray::<LENGTH>::gen_locked()
-                        .expect("couldn't create locked bytes");
+                    let mut arr =
+                        HeapByteArray::<LENGTH>::gen_locked().map_err(A::Error::custom)?;
                     let mut idx: usize = 0;
                     // the size hint is unreliable (absent for JSON): count elements
                     while let Some(elem) = seq.next_element()? {
@@ -254,8 +255,7 @@ mod protected {
                     if v.len() != LENGTH {
                         Err(Error::invalid_length(v.len(), &stringify!(LENGTH)))
                     } else {
-                        Ok(HeapByteArray::<LENGTH>::from_slice_into_locked(v)
-                            .expect("couldn't copy slice into locked bytes"))
+                        HeapByteArray::<LENGTH>::from_slice_into_locked(v).map_err(E::custom)
                     }
                 }
             }
